@@ -170,3 +170,71 @@ def site_accounting():
     except Exception as ex:  # noqa
         ev.append({"e": "exception", "msg": "%s: %s" % (type(ex).__name__, str(ex)[:200])})
     return ev
+
+
+# ---------------------------------------------------------------------------------------------------------------------------
+# site pools per kind of site (Sites.tla / Sites_Trace.tla)
+KIND_SETS = [("bulk",) * 3, ("dislocations",) * 3, ("grain boundaries",) * 3, ("grain edges",) * 3, ("grain corners",) * 3,
+             ("bulk", "dislocations", "bulk"), ("dislocations", "dislocations", "grain boundaries"), ("grain edges", "grain corners", "grain edges"),
+             ("grain boundaries", "bulk", "grain boundaries"), ("dislocations", "bulk", "dislocations"), ("grain corners", "grain corners", "bulk")]
+PARENTS = [{}, {2: [0]}, {1: [0], 2: [0, 1]}]
+from kawin.Constants import AVOGADROS_NUMBER as AVO      # the library's own value (6.022e23): the unit, not the law, is at stake
+
+
+def site_snapshots(tier="quick"):
+    """every (site assignment, parent relation): precipitates are added phase by phase; after every addition the sites the model
+    offers each phase are logged together with the documented measures of every distribution (integer milli-units per kind)"""
+    from . import kwn_drv as K
+    traces, labels = [], []
+    names = ["beta", "gamma", "delta"]
+    for kinds in KIND_SETS:
+        for par in PARENTS:
+            ev = [{"e": "init"}]
+            lab = "sites:%s parents=%s" % ("/".join(kinds), par)
+            try:
+                cfg = dict(phases=[dict(name=nm, gamma=0.05 + 0.01 * i, site=kd, xe0=0.005 - 0.0005 * i, VmB=1e-5 * (1 + 0.1 * i)) for i, (nm, kd) in enumerate(zip(names, kinds))],
+                           D=1e-16, gb=0.03, calls=[(1.0, 0.5)], bulkN0=1e24, grainSize=1, disl=1e14)
+                m, th, obs = K.build(cfg)
+                for child, ps in par.items():
+                    m.setParentPhases(names[child], [names[q] for q in ps])
+                m.setup()
+                ns = m.matrixParameters.nucleationSites
+                vma = m.matrixParameters.volume.Vm
+                pools = {"bulk": ns.bulkN0, "dislocations": ns.dislocationN0, "grain boundaries": ns.GBareaN0, "grain edges": ns.GBedgeN0, "grain corners": ns.GBcornerN0}
+                unit = {k: float(v) / 1000.0 for k, v in pools.items()}
+                nuc = [m.precipitateParameters[q].nucleation for q in range(3)]
+
+                def own(q, psd):
+                    r = np.asarray(m.PBM[q].PSDsize, dtype=float)
+                    n = np.asarray(psd, dtype=float)
+                    M0, M1, M2 = float(np.sum(n)), float(np.sum(n * r)), float(np.sum(n * r * r))
+                    line, area = M1 * (AVO / vma) ** (1 / 3), M2 * (AVO / vma) ** (2 / 3)
+                    return {"bulk": M0, "grain corners": M0, "dislocations": line, "grain edges": math.sqrt(1 - float(nuc[q].GBk) ** 2) * line,
+                            "grain boundaries": float(nuc[q].gbRemoval) * area}[kinds[q]], M2
+                x = [np.zeros(m.PBM[q].bins) for q in range(3)]
+                shape = np.zeros(m.PBM[0].bins); shape[40:60] = 1.0
+                per = [own(q, shape)[0] for q in range(3)]          # occupation per unit density of the test shape
+                for step in range(13):
+                    if step > 0:
+                        q = (step - 1) % 3
+                        x[q] = x[q] + shape * (0.13 + 0.02 * step) * pools[kinds[q]] / per[q]
+                    mom, surf_to = [], []
+                    for q in range(3):
+                        o, _ = own(q, x[q])
+                        u = int(round(o / unit[kinds[q]]))
+                        mom.append([u, u, u])       # the three measures of Sites.tla in the unit of the phase's own kind: only the own-kind one is ever read
+                    for p_ in range(3):
+                        row = []
+                        for q in par.get(p_, []):
+                            M2 = own(q, x[q])[1]
+                            row.append(int(round(4 * math.pi * M2 * (AVO / m.precipitateParameters[q].volume.Vm) ** (2 / 3) / unit[kinds[p_]])))
+                        surf_to.append(row)
+                    obsv = [float(m._calcNucleationSites(0.0, x, p_)) for p_ in range(3)]
+                    ev.append({"e": "sites", "name": "%s step %d" % (lab, step), "kinds": list(kinds), "mom": mom, "surfTo": surf_to,
+                               "pool": {k: 1000 for k in pools}, "parents": [[q + 1 for q in par.get(p_, [])] for p_ in range(3)],
+                               "obs": [int(round(o / unit[kinds[p_]])) if math.isfinite(o) and abs(o / unit[kinds[p_]]) < 2e9 else -999999 for p_, o in enumerate(obsv)],
+                               "tol": 5, "grow": step > 0})
+            except Exception as ex:  # noqa
+                ev.append({"e": "exception", "msg": "%s: %s" % (type(ex).__name__, str(ex)[:200])})
+            traces.append(ev); labels.append(lab)
+    return labels, traces
